@@ -40,6 +40,8 @@ class NullContext : public Context {
     X(mech_retry_after_failed_initialize) X(mech_retry_after_failed_start) \
     X(hooks_init_ok) X(hooks_init_fail) X(hooks_start_ok) X(hooks_start_fail) X(hooks_stop) X(hooks_cleanup) \
     X(mech_reverse_stop_of_3_or_more) X(state_reads) X(mech_destroy_without_cleanup) X(mech_destroy_while_running) \
+    X(histories_ending_in_destroy_while_running) X(histories_ending_in_destroy_while_inited) X(histories_ending_in_destroy_after_stop) \
+    X(destroy_descendants_stopped_by_root_destructor) X(destroy_descendants_cleaned_by_root_destructor) X(destroy_half_built_tree) \
     X(hooks_during_destruction) X(mech_children_deleted_by_parent) \
     X(mech_init_required_child_fails_early_return) X(mech_start_required_child_fails_early_return) \
     X(mech_init_required_child_fails_after_sibling_succeeded) X(mech_start_required_child_fails_after_sibling_succeeded) \
@@ -177,6 +179,7 @@ void run_case(const c11::Tree &tree, const std::vector<uint8_t> &calls, bool fin
     std::string trace_txt;
     int prev_ret[4] = {-1, -1, -1, -1};
     size_t max_stops_in_call = 0;
+    bool last_change_was_stop = false;   //! the last call that changed the root's state was stop()
 
     auto do_call = [&](uint8_t c) {
         size_t from = w.trace.size();
@@ -216,6 +219,7 @@ void run_case(const c11::Tree &tree, const std::vector<uint8_t> &calls, bool fin
         if ((c == c11::CALL_STOP || c == c11::CALL_CLEANUP) && stops >= 3) cnt(mech_reverse_stop_of_3_or_more);
         if (stops > max_stops_in_call) max_stops_in_call = stops;
         if (ret >= 0) prev_ret[c] = ret;
+        if (!evs.empty()) last_change_was_stop = (c == c11::CALL_STOP);
 
         mon.on_call((c11::Call)c, evs, ret);
         for (size_t i = 0; i < N; ++i) mon.check_state((int)i, state_num(probe[i]->state()));
@@ -230,16 +234,31 @@ void run_case(const c11::Tree &tree, const std::vector<uint8_t> &calls, bool fin
     if (final_cleanup) do_call(c11::CALL_CLEANUP);
     else {
         cnt(mech_destroy_without_cleanup);
-        if (state_num(root->state()) == 2) cnt(mech_destroy_while_running);
+        const int rs = state_num(root->state());
+        if (rs == 2) { cnt(mech_destroy_while_running); cnt(histories_ending_in_destroy_while_running); }
+        if (rs == 1) { cnt(histories_ending_in_destroy_while_inited); if (last_change_was_stop) cnt(histories_ending_in_destroy_after_stop); }
+        if (!mon.in_sync) cnt(destroy_half_built_tree);
     }
 
-    // destruction
+    // destruction. What the code guarantees for a root deleted without cleanup(): ~Module() of the root calls
+    // cleanup() while every descendant is still a complete object, so their onStop/onCleanup overrides run
+    // (reverse order) before any of them is deleted; only the root's OWN onStop/onCleanup cannot run, its
+    // derived part is gone by then. on_destroy() holds the hooks to the ordering rules, on_destroyed_without_cleanup()
+    // to the balance of every descendant.
     size_t from = w.trace.size();
     delete root;
     std::vector<c11::Ev> devs(w.trace.begin() + from, w.trace.end());
     destroyed_root = true;
     if (!devs.empty()) cnt(hooks_during_destruction, devs.size());
+    if (want_sample && !devs.empty()) trace_txt += " / ~root: " + c11::ev_str(devs, 40);
     mon.on_destroy(devs);
+    if (!final_cleanup) {
+        size_t ds = 0, dc = 0;
+        for (auto &e : devs) { if (e.k == c11::K_STOP) ++ds; if (e.k == c11::K_CLEANUP) ++dc; }
+        if (ds) cnt(destroy_descendants_stopped_by_root_destructor);
+        if (dc) cnt(destroy_descendants_cleaned_by_root_destructor);
+        mon.on_destroyed_without_cleanup();
+    }
     size_t deleted_children = 0;
     for (size_t i = 0; i < N; ++i) {
         if (w.destroyed[i] != 1)
@@ -274,7 +293,7 @@ void run_case(const c11::Tree &tree, const std::vector<uint8_t> &calls, bool fin
                 (uint64_t)x.fill_cfg << 11 | (uint64_t)x.use_add_as << 12 | (uint64_t)x.init_plan << 16 | (uint64_t)x.start_plan << 24);
     for (auto &d : done) sig.add((uint64_t)d.first * 4 + (uint64_t)(d.second + 1));
     sig.add(final_cleanup);
-    bool nontrivial = N >= 2 && mon.saw_hook_failure && w.trace.size() >= 3;
+    bool nontrivial = N >= 2 && w.trace.size() >= 3 && (mon.saw_hook_failure || (!final_cleanup && !devs.empty()));
     vh::note_case(sig.h, nontrivial);
     if (want_sample && nontrivial && N >= 3 && N <= 9 && vh::want_sample())
         vh::sample("{\"tree_calls_returns\":" + vh::jstr(make_script()) + ",\"hooks\":" + vh::jstr(trace_txt.substr(0, 1500)) + "}");
@@ -386,7 +405,9 @@ std::vector<uint8_t> gen_calls(vh::Rng &r) {
 void random_case(uint64_t, vh::Rng &r) {
     c11::Tree t = gen_tree(r);
     std::vector<uint8_t> calls = gen_calls(r);
-    bool final_cleanup = !r.chance(1, 8);
+    bool final_cleanup = !r.chance(1, 4);
+    if (!final_cleanup && r.chance(3, 4))       // most of these end while the tree is still initialised or running
+        while (!calls.empty() && calls.back() == c11::CALL_CLEANUP) calls.pop_back();
     run_case(t, calls, final_cleanup, vh::want_sample());
 }
 
@@ -416,7 +437,7 @@ uint64_t space_size(unsigned nodes, unsigned faults, unsigned len) {
     return s;
 }
 
-void exhaustive_case(uint64_t idx, unsigned nodes, unsigned faults, unsigned len) {
+void exhaustive_case(uint64_t idx, unsigned nodes, unsigned faults, unsigned len, bool final_cleanup) {
     static const uint8_t alphabet[] = {0x00, 0xff, 0x01, 0xfe};
     unsigned n = 1;
     uint64_t x = idx;
@@ -452,7 +473,7 @@ void exhaustive_case(uint64_t idx, unsigned nodes, unsigned faults, unsigned len
         t.n[0].name.clear();
         for (unsigned i = 0; i < n; ++i) if (!t.n[i].kids.empty()) t.n[t.n[i].kids[0]].name.clear();
     }
-    run_case(t, calls, true, (idx % 977) == 0 && vh::want_sample());
+    run_case(t, calls, final_cleanup, (idx % 977) == 0 && vh::want_sample());
 }
 
 }  // namespace
@@ -463,6 +484,7 @@ int main(int argc, char **argv) {
     const unsigned nodes = (unsigned)vh::st().args.num("nodes", 4);
     const unsigned faults = (unsigned)vh::st().args.num("faults", 2);
     const unsigned len = (unsigned)vh::st().args.num("len", 4);
+    const bool final_cleanup = vh::st().args.num("final", 1) != 0;   //! --final 0: delete the root without the closing cleanup()
     if (nodes < 1 || nodes > 4 || faults < 1 || faults > 4 || len > 8) { fprintf(stderr, "c11: bad --nodes/--faults/--len\n"); return 2; }
     if (mode == "xcount") {
         printf("%llu\n", (unsigned long long)space_size(nodes, faults, len));
@@ -474,7 +496,7 @@ int main(int argc, char **argv) {
     for (uint64_t i = a.first; i < a.first + a.count; ++i) {
         vh::begin_case(i);
         vh::Rng rng(vh::mix(a.seed, i));
-        if (mode == "exhaustive") exhaustive_case(i, nodes, faults, len);
+        if (mode == "exhaustive") exhaustive_case(i, nodes, faults, len, final_cleanup);
         else random_case(i, rng);
         vh::end_case();
     }
